@@ -744,7 +744,12 @@ func (c *Concretizer) buildRequest(o *ROp, variant int) ([]byte, int) {
 	nVariants := 1
 
 	if o.Sig != "ok" && o.Sig != "otherkey" {
-		signedData, nVariants = tamperJWS(signedData, o.Sig, variant)
+		tv := variant
+		if variant == 0 && o.Sig == "hdr_changed" {
+			tv = o.way(5) // (without expansion: the shapes of a changed header by rotation)
+		}
+
+		signedData, nVariants = tamperJWS(signedData, o.Sig, tv)
 	}
 
 	if o.Wf == "badjws" {
@@ -886,8 +891,8 @@ func tamperJWS(sd, kind string, variant int) (string, int) {
 			h = map[string]interface{}{}
 		}
 
-		switch variant % 3 {
-		case 0:
+		switch variant % 6 {
+		case 0, 5:
 			h["kid"] = "key-2"
 		case 1:
 			delete(h, "kid")
@@ -898,11 +903,22 @@ func tamperJWS(sd, kind string, variant int) (string, int) {
 			} else {
 				h["alg"] = "ES256"
 			}
+		case 3, 4:
+			// a member put in front under a name the header already has (the genuine one comes last)
+			body := strings.TrimSpace(string(hdr))
+			if strings.HasPrefix(body, "{") && len(body) > 2 {
+				front := `"alg":"none",`
+				if variant%6 == 4 {
+					front = `"kid":"somebody-else",`
+				}
+
+				return join(b64([]byte("{"+front+body[1:])), parts[1], parts[2]), 6
+			}
 		}
 
 		hb, _ := json.Marshal(h)
 
-		return join(b64(hb), parts[1], parts[2]), 3
+		return join(b64(hb), parts[1], parts[2]), 6
 	case "seg_hdr":
 		switch variant % 3 {
 		case 0:
